@@ -70,3 +70,28 @@ func ZZ_C10_V1_same_shape_keys_sort_like_user_keys() {
 	}
 	zzReach("V1.shape.done")
 }
+
+// V1d: prefix ranges. Every iterator over prefix p is bounded by [p, prefixEnd(p)). For every stored
+// key that continues p with one more length-prefixed segment - of any length up to the documented
+// maximum total key length of 255 bytes, and any content, including all 0xFF - and any version suffix, the raw
+// versioned key lies inside that range (otherwise prefix scans silently skip committed keys while
+// point reads still find them).
+//
+//zz:harness unwind=300 maxalloc=300
+//zz:reach V1d.done
+func ZZ_C10_V1d_prefix_range_contains_every_key_under_the_prefix() {
+	vs := &VersionedStore{}
+	p := lib.JoinLenPrefix([]byte{'p'})
+	// documented contract of the store: a user key is at most 255 bytes long in total
+	segLen := []int{0, 1, 2, 8, 9, 251, 252}[zzConcrete(zzInt("segLen"), 0, 6)]
+	seg := zzBytes("seg", segLen)
+	key := lib.JoinLenPrefix([]byte{'p'}, seg)
+	raw := vs.makeVersionedKey(key, zzU64("version"))
+	end := prefixEnd(p)
+	zzAssert("V1d.key-not-below-the-range", bytes.Compare(raw, p) >= 0)
+	zzAssert("V1d.key-below-the-exclusive-upper-bound", bytes.Compare(raw, end) < 0)
+	// a key under the next sibling prefix is outside
+	sib := vs.makeVersionedKey(lib.JoinLenPrefix([]byte{'q'}, seg), zzU64("version2"))
+	zzAssert("V1d.sibling-prefix-is-outside", bytes.Compare(sib, end) >= 0)
+	zzReach("V1d.done")
+}
